@@ -161,7 +161,9 @@ class Driver:
                 if not fl & 2 and not self.cfg.has_seg:
                     if self.cfg.per_axis_pos:
                         attrs["y"], attrs["x"] = user_pos(n)
-                    else:
+                        if fl & 16:
+                            del attrs["x"]          # only part of the per-axis position
+                    elif not fl & 16:
                         attrs["pos"] = user_pos(n)
                 UserAddNode(tr, n, attrs, force=bool(fl & 1))
             elif k == K_ADDEDGE:
@@ -290,7 +292,7 @@ def project(tr, cfg: Cfg, queries=False, shift=0):
         seg = [int(x) for x in np.asarray(tr.segmentation).reshape(-1)]
     shpv, shpr = shape_digests(tr, cfg)
     act = sorted(RFEAT.get(k, k) for k in tr.annotators.features)
-    reg = sorted(RFEAT.get(k, k) for k in tr.features)
+    reg = sorted({"pos" if k in ("z", "y", "x") else RFEAT.get(k, k) for k in tr.features})
     out = {
         "time": time, "E": E, "tid": tid, "lid": lid, "t2n": t2n, "l2n": l2n,
         "maxT": int(ta.max_tracklet_id) + shift, "maxL": int(ta.max_lineage_id) + shift,
@@ -405,7 +407,7 @@ def alphabet(drv: Driver, kinds=None, wide=True):
                     for f in (0, 1):
                         out.append([K_ADDNODE, n, t, i, f])
                 for i in sorted({1, maxT + 1}):
-                    for f in (2, 3):
+                    for f in (2, 3, 16, 17):
                         out.append([K_ADDNODE, n, t, i, f])
             out.append([K_ADDNODE, n, 0, 1, 4])
             out.append([K_ADDNODE, n, 0, 1, 8])
